@@ -124,12 +124,18 @@ def make_harness(case, tier):
         if impl == 'chunked':
             from taskchain.utils.iter import chunked
             ln = ctx.choice('len', 8)
-            size = ctx.sym_int('size', 1, None)
+            # the chunk size: any integer >= 1 (symbolic), or one of 1..3 as a plain int
+            size = (1 + ctx.choice('size_concrete', 3)) if ctx.flag('plain_int_size') else ctx.sym_int('size', 1, None)
             xs = [ctx.sym_val(f'x{i}') for i in range(ln)]
             import collections
             form = ctx.choice('iterable', 4)
             src = [iter(xs), list(xs), tuple(xs), collections.deque(xs)][form]
-            chunks = list(chunked(src, size))
+            try:
+                chunks = list(chunked(src, size))
+            except Exception as e:
+                ctx.check_concrete(False, 'chunked', {'len': ln, 'size': size, 'iterable': type(src).__name__,
+                                                      'error': f'{type(e).__name__}: {e}'[:150]})
+                return
             flat = [x for c in chunks for x in c]
             info = {'len': ln, 'size': size, 'chunk_lengths': [len(c) for c in chunks]}
             ctx.check_concrete(len(flat) == ln and all(a is b for a, b in zip(flat, xs)), 'chunked', dict(info, what='order'))
